@@ -73,3 +73,32 @@ From Minidyn Require Import Gen.Funcs Proofs.GenFuncs.
 Theorem C09_lexer_character_classes_are_the_code :
   forall c, go_isLetter c = is_letter c /\ go_isIdentifierLetter c = is_ident_char c /\ go_isWhitespace c = is_lex_space c.
 Proof. intros c. exact (conj (is_letter_is_code c) (conj (is_ident_char_is_code c) (is_lex_space_is_code c))). Qed.
+
+(* dangling operands are rejected (repaired in the code by f345586): BETWEEN takes two identifier tokens around AND,
+   "." and "[" take an identifier token, IN requires its opening parenthesis - otherwise the parse records an error *)
+Theorem C09_between_operands_checked :
+  forall upd n l p e p',
+    pinfix upd (S n) IBetween l p = Some (e, p') ->
+    (e = ENil /\ nerrs p' = S (nerrs p)) \/
+    (exists lo hi, e = EBetween (cur p) l (EIdent lo) (EIdent hi) /\ ty lo = IDENT /\ ty hi = IDENT /\ nerrs p' = nerrs p).
+Proof. exact between_operands_checked. Qed.
+
+Theorem C09_index_operand_checked :
+  forall upd n l p e p',
+    pinfix upd (S n) IIndex l p = Some (e, p') ->
+    (e = ENil /\ nerrs p' = S (nerrs p)) \/
+    (exists idx, e = EIndex (cur p) l (EIdent idx) /\ ty idx = IDENT /\ nerrs p' = nerrs p).
+Proof. exact index_operand_checked. Qed.
+
+Theorem C09_in_requires_parenthesis :
+  forall upd n l p, ty (peek p) <> LPAREN -> pinfix upd (S n) IIn l p = Some (ENil, add_err p).
+Proof. exact in_requires_parenthesis. Qed.
+
+(* the strings that used to be accepted, evaluated in the kernel: each is now a syntax error, whatever the item *)
+Theorem C09_dangling_sentences_rejected :
+  (forall it vals names, lang_match dangling1 it vals names = Err Syntax) /\
+  (forall it vals names, lang_match dangling2 it vals names = Err Syntax) /\
+  (forall it vals names, lang_match dangling3 it vals names = Err Syntax) /\
+  (forall it vals names, lang_update dangling4 it vals names = Err Syntax) /\
+  (forall it vals names, lang_update dangling5 it vals names = Err Syntax).
+Proof. exact dangling_sentences_rejected. Qed.
